@@ -31,7 +31,10 @@ CONSTANTS MaxL,       \* maximal stream / payload length
           MaxCap,     \* buffer capacities 0..MaxCap
           MaxIntr,    \* Interrupted outcomes per case
           MaxFault,   \* hard faults per case (Err(Other), Ok(0) on a write), 0 or 1
-          Helpers     \* helper names included
+          Helpers,    \* helper names included
+          Fixed       \* repaired defects whose fix is in the code: subset of AllFixes.  The normal
+                      \* configs use Fixed = AllFixes; control configs take fixes out and must then
+                      \* violate the property (the old behaviour is kept in the model as a switch)
 
 VARIABLES op,         \* the case: helper and parameters (constant)
           loc,        \* local variables of the helper
@@ -51,6 +54,14 @@ view == <<op, loc, pc, res, rpos, sink, intrLeft, faultLeft, fault, calls>>
 
 Min(a, b) == IF a < b THEN a ELSE b
 Max(a, b) == IF a > b THEN a ELSE b
+AllFixes == {"read_to_end_appends",        \* read_to_end family starts at the old length
+             "bufreader_cap0",             \* BufReader::with_capacity(0) uses capacity 1
+             "copy_cap0",                  \* copy_with_size(.., 0) uses a buffer of 1
+             "bufwriter_accept",           \* BufWriter::write returns Ok(written) once bytes are buffered
+             "read_vectored_at_clamp",     \* read_vectored_at clamps the position like read_at
+             "vec_write_vectored",         \* Vec::write_vectored reserves the payload length
+             "vec_write_vectored_at"}      \* Vec::write_vectored_at: saturating capacity hint
+ASSUME Fixed \subseteq AllFixes
 Bytes(a, k) == [i \in 1..k |-> a + i]
 RECURSIVE SumSeq(_, _)
 SumSeq(f, n) == IF n = 0 THEN 0 ELSE f[n] + SumSeq(f, n - 1)
@@ -201,14 +212,16 @@ CaseOk(o) ==
   /\ (o.h = "read_vectored_exact" /\ o.inner = "mem" => o.native)    \* in-memory readers are natively vectored
   /\ (o.h = "bufwriter" => Len(o.chunks) = Len(o.chunks))
 
+\* BufReader::with_capacity: Buffer::with_capacity(cap.max(1))   (before the fix: cap)
+BufReaderCap(c) == IF "bufreader_cap0" \in Fixed THEN Max(1, c) ELSE c
 InitLoc(o) ==
   CASE o.h \in {"read_exact", "read_exact_at", "append"} -> [NoLoc EXCEPT !.b = Vec(o.pre, o.cap, 10)]
     [] o.h \in RteHelpers -> [NoLoc EXCEPT !.b = Vec(o.pre, o.cap, 10)]
     [] o.h \in RveHelpers -> [NoLoc EXCEPT !.vb = Members(o.caps, o.lens)]
     [] o.h = "take" -> [NoLoc EXCEPT !.t = o.lim]
-    [] o.h \in {"bufreader", "bufreader_fill"} -> [NoLoc EXCEPT !.bb = [NoBB EXCEPT !.cap = o.bc]]
-    [] o.h = "take_fill" -> [NoLoc EXCEPT !.bb = [NoBB EXCEPT !.cap = o.bc], !.t = o.lim]
-    [] o.h = "copy" -> [NoLoc EXCEPT !.b = Vec(0, o.cap, 0), !.ph = "read"]
+    [] o.h \in {"bufreader", "bufreader_fill"} -> [NoLoc EXCEPT !.bb = [NoBB EXCEPT !.cap = BufReaderCap(o.bc)]]
+    [] o.h = "take_fill" -> [NoLoc EXCEPT !.bb = [NoBB EXCEPT !.cap = BufReaderCap(o.bc)], !.t = o.lim]
+    [] o.h = "copy" -> [NoLoc EXCEPT !.b = Vec(0, IF "copy_cap0" \in Fixed THEN Max(1, o.cap) ELSE o.cap, 0), !.ph = "read"]
     [] o.h \in {"write_all", "write_all_at"} -> [NoLoc EXCEPT !.b = Vec(o.n, o.n, 0)]
     [] o.h \in WvaHelpers -> [NoLoc EXCEPT !.vb = PayloadFrom(o.lens, 1, 0)]
     [] o.h = "bufwriter" -> [NoLoc EXCEPT !.bb = [NoBB EXCEPT !.cap = o.bc], !.ph = "call"]
@@ -287,21 +300,23 @@ StepReadExact ==
 
 \* ---------------------------------------------------------------------------------------
 \* read_to_end / read_to_string / read_to_end_at:  loop_read_to_end!(buf, total, loop
-\*      self.read[_at](buf.slice(total..) [, pos + total]))     with  total = 0  at entry
-\* (deviation DevReadToEndOverwrites: the slice starts at `total`, not at the old length)
+\*      self.read[_at](buf.slice(start + total..) [, pos + total]))   start = buf.len() at entry
+\* (before the fix read_to_end_appends: slice(total..), i.e. start = 0 - DevReadToEndOverwrites)
 \* ---------------------------------------------------------------------------------------
 StepReadToEnd ==
   /\ pc = "run" /\ UNCHANGED op
   /\ op.h \in RteHelpers
   /\ LET b1 == IF loc.b.len = loc.b.cap THEN [loc.b EXCEPT !.cap = @ + 32] ELSE loc.b    \* buf.reserve(32)
-         c == b1.cap - loc.t
+         start == IF "read_to_end_appends" \in Fixed THEN op.pre ELSE 0
+         bg == start + loc.t
+         c == b1.cap - bg
          at == op.pos + loc.t
-     IN IF loc.t > b1.len
+     IN IF bg > b1.len
         THEN Finish(RPanic) /\ NoCall /\ UNCHANGED loc
         ELSE \E o \in ROuts(c, at) :
                /\ RCall(c, at, o)
                /\ CASE o = 0  -> Finish(ROk(loc.t)) /\ loc' = [loc EXCEPT !.b = b1]
-                    [] o > 0  -> loc' = [loc EXCEPT !.t = @ + o, !.b = SliceRead(b1, loc.t, -1, RBytes(o, at))] /\ Stay
+                    [] o > 0  -> loc' = [loc EXCEPT !.t = @ + o, !.b = SliceRead(b1, bg, -1, RBytes(o, at))] /\ Stay
                     [] o = -1 -> loc' = [loc EXCEPT !.b = b1] /\ Stay
                     [] o = -2 -> Finish(RErr("other")) /\ loc' = [loc EXCEPT !.b = b1]
 
@@ -518,7 +533,12 @@ BwFlushStep(after) ==
       bs == SubSeq(bb.mem, bb.begin + 1, bb.len)
   IN \E o \in WOuts(n) :
        /\ WCall(n, 0, o, bs)
-       /\ CASE o = 0  -> Finish(RErr("wzero")) /\ UNCHANGED loc
+       /\ CASE o <= 0 /\ after = "ret" /\ loc.t > 0 /\ "bufwriter_accept" \in Fixed ->
+                 \* the bytes are accepted: the failure of the eager flush is not reported by this call;
+                 \* the data stays in the buffer and the next write / flush tries again
+                 loc' = BwAccepted(loc, loc.t) /\ Stay
+            [] o = 0 /\ ~(after = "ret" /\ loc.t > 0 /\ "bufwriter_accept" \in Fixed) ->
+                 Finish(RErr("wzero")) /\ UNCHANGED loc
             [] o > 0  -> IF bb.begin + o > bb.cap THEN Finish(RPanic) /\ UNCHANGED loc
                          ELSE IF bb.begin + o < bb.len
                          THEN loc' = [loc EXCEPT !.bb = [bb EXCEPT !.begin = @ + o]] /\ Stay      \* advance
@@ -534,10 +554,12 @@ BwFlushStep(after) ==
                                          IF loc.t = 0 THEN Finish(RErr("wzero")) /\ loc' = l1
                                          ELSE loc' = BwAccepted(l1, loc.t) /\ Stay
                                     [] after = "done" -> Finish(ROk(0)) /\ loc' = l1)
-            [] o = -1 -> (IF after = "done" THEN UNCHANGED loc           \* flush() returns Interrupted, user retries
+            [] o = -1 /\ ~(after = "ret" /\ loc.t > 0 /\ "bufwriter_accept" \in Fixed) ->
+                         (IF after = "done" THEN UNCHANGED loc           \* flush() returns Interrupted, user retries
                           ELSE loc' = [loc EXCEPT !.ph = "call",         \* write returns Interrupted, write_all retries
                                                  !.g = IF after = "ret" /\ loc.t > 0 THEN 1 ELSE @]) /\ Stay
-            [] o = -2 -> IF after = "done"
+            [] o = -2 /\ ~(after = "ret" /\ loc.t > 0 /\ "bufwriter_accept" \in Fixed) ->
+                         IF after = "done"
                          THEN loc' = [loc EXCEPT !.errs = Append(@, "other")] /\ Stay              \* user retries flush
                          ELSE Finish(RErr("other")) /\ UNCHANGED loc
 StepBufWriter ==
@@ -654,20 +676,22 @@ Agrees == IF op.h = "bufwriter" THEN RefBufWriterOk
           ELSE LET r == Ref o == Obs IN \A f \in DOMAIN r : o[f] = r[f]
 
 \* ---------------------------------------------------------------------------------------
-\* NAMED DEVIATIONS of the pinned code (known findings)
+\* NAMED DEVIATIONS: DevVectoredPrefilled is open (known finding, compio-buf); the others are
+\* repaired in the code and only exist when their fix is taken out of Fixed (control configs)
 \* ---------------------------------------------------------------------------------------
 \* read_to_end / read_to_string / read_to_end_at start writing at offset 0 of a non-empty buffer
-DevReadToEndOverwrites == op.h \in RteHelpers /\ op.pre > 0
+DevReadToEndOverwrites == "read_to_end_appends" \notin Fixed /\ op.h \in RteHelpers /\ op.pre > 0
 \* read_vectored_exact over a natively vectored reader with members that already hold data:
 \* advance_vec_to compares with the total length of the view and skips recording the bytes
 DevVectoredPrefilled == op.h \in RveHelpers /\ op.native /\ SumSeq(op.lens, Len(op.lens)) > 0
 \* a zero-capacity buffer makes a non-empty source look finished
-DevBufReaderZeroCap == /\ op.h \in {"bufreader", "bufreader_fill", "take_fill"} /\ op.bc = 0 /\ op.L > 0
+DevBufReaderZeroCap == /\ "bufreader_cap0" \notin Fixed
+                       /\ op.h \in {"bufreader", "bufreader_fill", "take_fill"} /\ op.bc = 0 /\ op.L > 0
                        /\ (op.h = "take_fill" => op.lim > 0)
-DevCopyZeroCap == op.h = "copy" /\ op.cap = 0 /\ op.L > 0
+DevCopyZeroCap == "copy_cap0" \notin Fixed /\ op.h = "copy" /\ op.cap = 0 /\ op.L > 0
 \* BufWriter::write reports Interrupted from its second flush_if_needed after it accepted the bytes;
 \* write_all retries and the bytes are buffered twice
-DevBufWriterInterruptedAfterAccept == op.h = "bufwriter" /\ loc.g = 1
+DevBufWriterInterruptedAfterAccept == "bufwriter_accept" \notin Fixed /\ op.h = "bufwriter" /\ loc.g = 1
 KnownDeviation == \/ DevReadToEndOverwrites \/ DevVectoredPrefilled \/ DevBufReaderZeroCap
                   \/ DevCopyZeroCap \/ DevBufWriterInterruptedAfterAccept
 
@@ -683,6 +707,8 @@ StrictBufReaderZeroCap == Done /\ DevBufReaderZeroCap => Agrees
 StrictCopyZeroCap == Done /\ DevCopyZeroCap => Agrees
 StrictBufWriterInterrupted == Done /\ DevBufWriterInterruptedAfterAccept => Agrees
 ConformsModuloKnown == Done /\ ~KnownDeviation => Agrees
+\* control for the repaired defects: with a fix taken out of Fixed this must be violated
+ConformsModuloOpen == Done /\ ~DevVectoredPrefilled => Agrees
 NoPanic == Done /\ ~KnownDeviation => res.k # "panic"
 ErrorKinds == Done /\ res.k = "err" => res.e \in {"eof", "wzero", "other"} \cup (IF op.h = "append" THEN {"intr"} ELSE {})
 \* termination: a bound on the inner calls in terms of the case (progress: every call transfers
